@@ -105,6 +105,25 @@ theorem sorted_means_nondecreasing (t : Tol) (S : Score → Prop) (hc : Coherent
   rw [this] at hb
   exact sortedTol_pairwise hc hS hs (j - i - 1) i a b ha hb
 
+/-- **The hall of fame keeps the best** (class level, coherent scores, `n_hof > 0`): after `update_hof(population)`
+    every population member's score is carried by an entry or the last (worst) entry is not above it — nothing strictly
+    better than the worst entry is dropped — and every score kept before is still kept. -/
+theorem update_hof_keeps_the_best (t : Tol) (S : Score → Prop) (hc : Coherent t S) (size : C → Nat) (nHof : Nat)
+    (hn : 0 < nHof) (pop : List PopEntry) (h h' : Heap C) (hof hof' : List HofEntry) (hlen : hof.length = nHof)
+    (hS : ∀ x ∈ hof, S x.score) (hSp : ∀ e ∈ pop, S e.score) (hs : SortedTol t hof)
+    (hres : updateHof t size nHof h hof pop = .ok (h', hof')) :
+    (∀ e ∈ pop, Kept t hof' e.score) ∧ ∀ s, S s → Kept t hof s → Kept t hof' s :=
+  updateHof_kept t S hc size nHof hn pop hlen hS hSp hs hres
+
+/-- **Ties are broken by node count** (coherent scores): if neighbouring entries with isclose scores are ordered by
+    the node count of their circuits before `update_hof`, they are afterwards. -/
+theorem update_hof_orders_ties_by_node_count (P : Params C D) (t : Tol) (S : Score → Prop) (hc : Coherent t S)
+    (nHof : Nat) (pop : List PopEntry) (h h' : Heap C) (hof hof' : List HofEntry) (hinv : HofInv P t h hof)
+    (hlen : hof.length = nHof) (hpop : ∀ e ∈ pop, PopHonest P h e) (hS : ∀ x ∈ hof, S x.score)
+    (hSp : ∀ e ∈ pop, S e.score) (hst : SizeTie t P.size h hof)
+    (hres : updateHof t P.size nHof h hof pop = .ok (h', hof')) : SizeTie t P.size h' hof' :=
+  updateHof_sizeTie P t S hc nHof pop hinv hlen hpop hS hSp hst hres
+
 /-! ## 2. `tournament_selection` -/
 
 /-- `min(tourn_pop, key=score)` returns a member of the tournament whose score no member beats. -/
@@ -247,6 +266,47 @@ theorem result_not_worse_than_anything_evaluated (P : Params C D) (cfg : Cfg) (d
       rw [hs]; exact hm c
     exact ClsLe.trans hc (hinvs.hof_scores S hm hinf res (List.mem_of_getElem? h0))
       (hinvm1.hof_scores S hm hinf _ (List.mem_of_getElem? hmb)) hSe hlater (hle e he)
+
+/-- **Whole run: the final hall of fame is sorted by (score class, node count) and keeps the best of everything
+    evaluated** (coherent scores): neighbouring entries with isclose scores are ordered by node count, and for every
+    generation `g < n_stop` the score of every population member evaluated in generation `g` is carried by a final
+    entry, or the final worst entry is not above it. -/
+theorem run_keeps_the_best_sorted_by_class_and_size (P : Params C D) (cfg : Cfg) (dr : Draws D) (tp : TransProbs)
+    (init : List C) (hlen : init.length = cfg.nPop) (S : Score → Prop) (hc : Coherent cfg.tol S)
+    (hm : ∀ c, S (P.metric c)) (hinf : S Score.inf) (hn : 0 < cfg.nHof) (s : St C) (res : HofEntry)
+    (hres : solve P cfg dr tp init = .ok (s, res)) :
+    SizeTie cfg.tol P.size s.heap s.hof ∧
+    ∀ g, g < cfg.nStop → ∃ m h1 pop1, generations P cfg dr 0 g (initState cfg tp init) = .ok m ∧
+      mutatePhase P (dr.mutation g) 0 cfg.nPop m.heap m.pop = .ok (h1, pop1) ∧
+      ∀ e ∈ pop1, Kept cfg.tol s.hof e.score := by
+  obtain ⟨hgens, _⟩ := solve_spec P cfg dr tp init hres
+  have hinv0 := initState_inv P cfg tp init hlen
+  refine ⟨generations_sizeTie P cfg dr S hc hm hinf cfg.nStop 0 hinv0 (initState_sizeTie P cfg tp init) hgens, ?_⟩
+  intro g hg
+  have e1 : cfg.nStop = g + (1 + (cfg.nStop - g - 1)) := by omega
+  rw [e1] at hgens
+  obtain ⟨m, hm1, hm2⟩ := generations_split P cfg dr g _ 0 hgens
+  obtain ⟨m', hm3, hm4⟩ := generations_split P cfg dr 1 _ (0 + g) hm2
+  have hinvm := generations_inv P cfg dr g 0 hinv0 hm1
+  simp only [generations] at hm3
+  split at hm3
+  · simp at hm3
+  · next m1 hgen =>
+    simp only [Except.ok.injEq] at hm3
+    subst hm3
+    have hgen' : generation P cfg dr g m = .ok m1 := by simpa using hgen
+    have hinvm1 := (generation_inv P cfg dr g hinvm hgen').1
+    obtain ⟨⟨h1, pop1, hmut, hk⟩, _⟩ := generation_kept P cfg dr g S hc hm hinf hn hinvm hgen'
+    obtain ⟨⟨h1', pop1', hmut', _, hhon⟩, _⟩ := generation_population_scores_honest P cfg dr g m m1 hinvm hgen'
+    rw [hmut] at hmut'
+    simp only [Except.ok.injEq, Prod.mk.injEq] at hmut'
+    obtain ⟨rfl, rfl⟩ := hmut'
+    refine ⟨m, h1, pop1, hm1, hmut, ?_⟩
+    intro e he
+    have hSe : S e.score := by
+      obtain ⟨c, _, hs⟩ := hhon e he
+      rw [hs]; exact hm c
+    exact generations_kept P cfg dr S hc hm hinf hn _ _ hinvm1 hm4 e.score hSe (hk e he)
 
 /-! ## 4. Reproducibility -/
 
